@@ -249,12 +249,64 @@ class Minimiser(object):
         return self.execs >= self.max_execs or time.monotonic() > self.deadline
 
     def fails(self, case):
+        """Judge one candidate in a forked child of this (clean) process, so that
+        state the system under test keeps between executions — a class-level memo,
+        a shared options dict — cannot make one candidate's verdict depend on the
+        candidates tried before it."""
+        import os
+        import pickle
+
         self.execs += 1
-        try:
-            v = run_one(self.sim, case, Stats(collect=False))
-        except HarnessError:
-            return False
-        return v is not None and v.klass() == self.klass
+        rfd, wfd = os.pipe()
+        pid = os.fork()
+        if pid == 0:
+            code = 0
+            try:
+                os.close(rfd)
+                try:
+                    v = run_one(self.sim, case, Stats(collect=False))
+                    verdict = v is not None and v.klass() == self.klass
+                except HarnessError:
+                    verdict = False
+                with os.fdopen(wfd, "wb") as w:
+                    pickle.dump(bool(verdict), w)
+            except BaseException:
+                code = 1
+            finally:
+                os._exit(code)
+        os.close(wfd)
+        with os.fdopen(rfd, "rb") as rd:
+            data = rd.read()
+        os.waitpid(pid, 0)
+        return bool(data) and pickle.loads(data)
+
+    def klass_of(self, case):
+        """Violation class of a case, computed in a forked child (None = no violation)."""
+        import os
+        import pickle
+
+        rfd, wfd = os.pipe()
+        pid = os.fork()
+        if pid == 0:
+            code = 0
+            try:
+                os.close(rfd)
+                try:
+                    v = run_one(self.sim, case, Stats(collect=False))
+                    out = None if v is None else v.klass()
+                except HarnessError:
+                    out = None
+                with os.fdopen(wfd, "wb") as w:
+                    pickle.dump(out, w)
+            except BaseException:
+                code = 1
+            finally:
+                os._exit(code)
+        os.close(wfd)
+        with os.fdopen(rfd, "rb") as rd:
+            data = rd.read()
+        os.waitpid(pid, 0)
+        return pickle.loads(data) if data else None
 
     def with_events(self, events):
         return {"config": self.case["config"], "events": events}
